@@ -116,7 +116,7 @@ def obj(shape, name, **assume):
     return a
 
 
-class _Self:
+class _Self(cas.Obj):
     pass
 
 
